@@ -16,6 +16,17 @@ impl Default for RandomState {
     #[verifier::external_body]
     fn default() -> (r: Self) { unimplemented!() }
 }
+impl Clone for RandomState { #[verifier::external_body] fn clone(&self) -> (r: Self) { unimplemented!() } }
+#[verifier::external_body]
+pub struct DefaultHasherStub { x: u64 }
+impl std::hash::Hasher for DefaultHasherStub {
+    #[verifier::external_body] fn finish(&self) -> u64 { unimplemented!() }
+    #[verifier::external_body] fn write(&mut self, bytes: &[u8]) { unimplemented!() }
+}
+impl std::hash::BuildHasher for RandomState {
+    type Hasher = DefaultHasherStub;
+    #[verifier::external_body] fn build_hasher(&self) -> DefaultHasherStub { unimplemented!() }
+}
 #[verifier::external_body]
 #[verifier::reject_recursive_types(K)]
 #[verifier::reject_recursive_types(V)]
@@ -25,11 +36,13 @@ pub mod builder_utils {
     use std::time::Duration;
     use super::*;
     /// returns normally iff both durations are <= 1000 years: Kani harnesses ensure_returns_when_within_1000_years /
-    /// ensure_panics_when_beyond_1000_years (complete over all Durations). Here: calling it is safe only within the limit.
+    /// ensure_panics_when_beyond_1000_years (complete over all Durations). Partial-correctness reading used here: IF the call
+    /// returns, both durations are within the limit. The builders below have no precondition on the durations, and the cache
+    /// constructor requires the limit (its `checked_add`s rely on it), so a `build*` that forgets this guard fails to verify.
 //@@ SIG file=src/common/builder_utils.rs owner=- name=ensure_expirations_or_panic
     #[verifier::external_body]
     pub fn ensure_expirations_or_panic(time_to_live: Option<Duration>, time_to_idle: Option<Duration>)
-        requires
+        ensures
             time_to_live.is_some() ==> dur_ns(time_to_live.unwrap()) <= max_dur_ns(), //@ [C17,C08]
             time_to_idle.is_some() ==> dur_ns(time_to_idle.unwrap()) <= max_dur_ns(), //@ [C17,C08]
     { unimplemented!() }
@@ -180,9 +193,6 @@ where
 
 //@@ FN file=src/unsync/builder.rs owner=CacheBuilder name=build tags=C17
     pub fn build(self) -> /*@+*/(r:/*@-*/ Cache<K, V, RandomState>/*@+*/)/*@-*/
-        requires // build panics iff a duration exceeds 1000 years: the "does not panic" side is this precondition of the callee //@
-            self.time_to_live.is_some() ==> dur_ns(self.time_to_live.unwrap()) <= max_dur_ns(), //@
-            self.time_to_idle.is_some() ==> dur_ns(self.time_to_idle.unwrap()) <= max_dur_ns(), //@
         ensures // C17: the five knobs reach the cache unchanged //@
             r.sp_max_capacity() == self.max_capacity, r.sp_weigher() == self.weigher, //@ [C17]
             r.sp_ttl() == self.time_to_live, r.sp_tti() == self.time_to_idle, //@ [C17]
@@ -204,9 +214,6 @@ where
     pub fn build_with_hasher<S>(self, hasher: S) -> /*@+*/(r:/*@-*/ Cache<K, V, S>/*@+*/)/*@-*/
     where
         S: BuildHasher + Clone,
-        requires //@
-            self.time_to_live.is_some() ==> dur_ns(self.time_to_live.unwrap()) <= max_dur_ns(), //@
-            self.time_to_idle.is_some() ==> dur_ns(self.time_to_idle.unwrap()) <= max_dur_ns(), //@
         ensures //@
             r.sp_max_capacity() == self.max_capacity, r.sp_weigher() == self.weigher, r.sp_hasher() == hasher, //@ [C17]
             r.sp_ttl() == self.time_to_live, r.sp_tti() == self.time_to_idle, //@ [C17]
@@ -369,9 +376,6 @@ where
 
 //@@ FN file=src/sync/builder.rs owner=CacheBuilder name=build tags=C17
     pub fn build(self) -> /*@+*/(r:/*@-*/ Cache<K, V, RandomState>/*@+*/)/*@-*/
-        requires // build panics iff a duration exceeds 1000 years: the "does not panic" side is this precondition of the callee //@
-            self.time_to_live.is_some() ==> dur_ns(self.time_to_live.unwrap()) <= max_dur_ns(), //@
-            self.time_to_idle.is_some() ==> dur_ns(self.time_to_idle.unwrap()) <= max_dur_ns(), //@
         ensures // C17: the five knobs reach the cache unchanged //@
             r.sp_max_capacity() == self.max_capacity, r.sp_weigher() == self.weigher, //@ [C17]
             r.sp_ttl() == self.time_to_live, r.sp_tti() == self.time_to_idle, //@ [C17]
@@ -393,9 +397,6 @@ where
     pub fn build_with_hasher<S>(self, hasher: S) -> /*@+*/(r:/*@-*/ Cache<K, V, S>/*@+*/)/*@-*/
     where
         S: BuildHasher + Clone + Send + Sync + 'static,
-        requires //@
-            self.time_to_live.is_some() ==> dur_ns(self.time_to_live.unwrap()) <= max_dur_ns(), //@
-            self.time_to_idle.is_some() ==> dur_ns(self.time_to_idle.unwrap()) <= max_dur_ns(), //@
         ensures //@
             r.sp_max_capacity() == self.max_capacity, r.sp_weigher() == self.weigher, r.sp_hasher() == hasher, //@ [C17]
             r.sp_ttl() == self.time_to_live, r.sp_tti() == self.time_to_idle, //@ [C17]
